@@ -177,3 +177,36 @@ C("c04-expand-settings", "C04", CTX, "            setting_kwds += uh.HasRounds.u
 C("c04-auto", "C04", CTX, "                return scheme != self.default_scheme(cat)", "                return scheme != self.default_scheme(None)", "C04.e")
 C("c04-libpass-cost", "C04", "libpass/context.py", "        return all(not scheme.identify(hash) for scheme in schemes)", "        return all(scheme.needs_update(hash) for scheme in schemes)", "C04.f")
 C("c04-libpass-default", "C04", "libpass/context.py", "        return self._schemes[0]", "        return self._schemes[-1]", "C04.f")
+
+# ---- C13 / C14 / C15 / C18
+TOT = "passlib/totp.py"
+DIG = "passlib/crypto/digest.py"
+MISC = "passlib/handlers/misc.py"
+C("c13-offset-mask", "C13", TOT, "offset = digest[-1] & 0xF", "offset = digest[-1] & 0x7", "C13.a")
+C("c13-31bit", "C13", TOT, "& 0x7FFFFFFF", "& 0xFFFFFFFF", "C13.a")
+C("c13-pack", "C13", TOT, '_pack_uint64 = struct.Struct(">Q").pack', '_pack_uint64 = struct.Struct("<Q").pack', "C13.a")
+C("c13-counter", "C13", TOT, "        return time // self.period", "        return (time + self.period - 1) // self.period", "C13.a")
+C("c13-utc", "C13", TOT, "return calendar.timegm(time.utctimetuple())", "return calendar.timegm(time.timetuple())", "C13.b")
+C("c13-hmac-ge", "C13", DIG, "    if klen > block_size:\n        key = const(key).digest()", "    if klen >= block_size:\n        key = const(key).digest()", "C13.d")
+C("c13-hmac-nopad", "C13", DIG, "        key = const(key).digest()\n        klen = digest_size\n", "        key = const(key).digest()\n", "C13.d")
+C("c13-hmac-swap", "C13", DIG, "_inner_copy = const(key.translate(_TRANS_36)).copy\n    _outer_copy = const(key.translate(_TRANS_5C)).copy", "_inner_copy = const(key.translate(_TRANS_5C)).copy\n    _outer_copy = const(key.translate(_TRANS_36)).copy", "C13.d")
+C("c13-digits-range", "C13", TOT, "if digits < 6 or digits > 10:", "if digits < 6 or digits > 11:", "C13.a")
+C("c14-end-excl", "C14", TOT, "end = self._time_to_counter(client_time + window) + 1", "end = self._time_to_counter(client_time + window)", "C14.a")
+C("c14-start", "C14", TOT, "start = max(last_counter, self._time_to_counter(client_time - window))", "start = self._time_to_counter(client_time - window)", "C14.a")
+C("c14-used", "C14", TOT, "        if counter == last_counter:\n            raise UsedTokenError(expire_time=(last_counter + 1) * self.period)\n", "", "C14.a")
+C("c14-falsy", "C14", TOT, "        if last_counter is None:\n            last_counter = -1", "        if not last_counter:\n            last_counter = -1", "C14")
+C("c14-scan-le", "C14", TOT, "        while counter < end:", "        while counter <= end:", "C14.b")
+C("c14-skew", "C14", TOT, "client_time = time + skew", "client_time = time - skew", "C14.a")
+C("c14-len", "C14", TOT, "        if len(token) != digits:", "        if len(token) > digits:", "C14.b")
+C("c15-elif", "C15", TOT, "        if self.period != 30:\n            state[\"period\"] = self.period", "        elif self.period != 30:\n            state[\"period\"] = self.period", "C15.a")
+C("c15-double-unquote", "C15", TOT, "            params[k] = v\n", "            params[k] = unquote(v)\n", "C15.c")
+C("c15-quote-safe", "C15", TOT, '"{}={}".format(key, quote(value, ""))', '"{}={}".format(key, quote(value))', "C15.c")
+C("c15-key-name", "C15", TOT, '            state["period"] = self.period', '            state["step"] = self.period', "C15.a")
+C("c15-wallet-key", "C15", TOT, "s=b32encode(salt), k=b32encode(ckey)", "s=b32encode(ckey), k=b32encode(salt)", "C15.d")
+C("c15-uri-param", "C15", TOT, 'args.append(("digits", str(self.digits)))', 'args.append(("digit", str(self.digits)))', "C15.c")
+C("c18-verify-true", "C18", MISC, "            raise uh.exc.InvalidHashError(cls)\n        return False\n", "            raise uh.exc.InvalidHashError(cls)\n        return not secret\n", "C18.a")
+C("c18-none-verify", "C18", CTX, "        if hash is None:\n            # convenience feature -- let apps pass in hash=None when user\n            # isn't found / has no hash; useful because it invokes dummy_verify()\n            self.dummy_verify()\n            return False\n", "        if hash is None:\n            return False\n", "C18.b")
+C("c18-dummy-ret", "C18", CTX, "        self.verify(self._dummy_secret, self._dummy_hash)\n        return False", "        return self.verify(self._dummy_secret, self._dummy_hash)", "C18.b")
+C("c18-enable-strip", "C18", MISC, "                orig = hash[len(prefix) :]\n                if orig:\n                    return orig\n                raise ValueError(\"cannot restore original hash\")", "                orig = hash[len(prefix) :]\n                return orig", "C18.c")
+C("c18-disable-nest", "C18", MISC, "            if cls.identify(hash):\n                # extract original hash, so that we normalize marker\n                hash = cls.enable(hash)\n", "", "C18.c")
+C("c18-ctx-enable", "C18", CTX, "        if record.is_disabled:\n            # XXX: should we throw error if result can't be identified by context?\n            return record.enable(hash)\n        # hash wasn't a disabled hash, so return unchanged\n        return hash", "        return record.enable(hash)", "C18.c")
